@@ -308,7 +308,7 @@ MUTANTS = [{'expect': ['C13-R5'],
   'prop': 'C05',
   'tests': 'KILLED'}]
 
-EQUIVALENTS = [{'files': [('oneliner/expr_unparse.py', '        elif ord(i) > 255:', '        elif ord(i) > 127:')],
+EQUIVALENTS = [{'files': [('oneliner/expr_unparse.py', '        elif ord(i) > 255 and', '        elif ord(i) > 127 and')],
   'id': 'm21',
   'props': ['C04'],
   'why': 'behaviour-preserving by construction (pilot survivor)'},
